@@ -65,17 +65,27 @@ theorem cond_spec (c : Ctx) (a b d : Val) :
       (eval c a).bind (fun r => if Spec.toBool r then eval c b else eval c d) :=
   Proofs.C04.cond_list c a b d
 
-/-- **cond_spec** (document form with `if`, `then`, `else`, in any order). -/
+/-- **cond_spec** (document form with exactly the fields `if`, `then`, `else`, in any order). -/
 theorem cond_doc_spec (c : Ctx) (gs : Fields)
-    (h : (dhas "if" gs && dhas "then" gs && dhas "else" gs) = true) :
+    (h : (dhas "if" gs && dhas "then" gs && dhas "else" gs) = true)
+    (hx : gs.any (fun kv => !(["if", "then", "else"].contains kv.1)) = false) :
     eval c (.doc [("$cond", .doc gs)]) =
       (evalAt c "if" gs).bind (fun r =>
         if Spec.toBool r then evalAt c "then" gs else evalAt c "else" gs) :=
-  Proofs.C04.cond_doc c gs h
+  Proofs.C04.cond_doc c gs h hx
 
 example : (dhas "if" [("then", Val.int 1), ("if", .str "$a"), ("else", .null)] &&
     dhas "then" [("then", Val.int 1), ("if", .str "$a"), ("else", .null)] &&
-    dhas "else" [("then", Val.int 1), ("if", .str "$a"), ("else", .null)]) = true := by decide
+    dhas "else" [("then", Val.int 1), ("if", .str "$a"), ("else", .null)]) = true ∧
+    [("then", Val.int 1), ("if", .str "$a"), ("else", .null)].any
+      (fun kv => !(["if", "then", "else"].contains kv.1)) = false := by decide
+
+/-- a `$cond` document that lacks one of the three fields is rejected (it used to read as
+    "missing": finding `condkeys`, repaired in the library) -/
+theorem cond_doc_lacking (c : Ctx) (gs : Fields)
+    (h : (dhas "if" gs && dhas "then" gs && dhas "else" gs) = false) :
+    eval c (.doc [("$cond", .doc gs)]) = .error .opFail :=
+  Proofs.C04.cond_doc_lacking c gs h
 
 /-- `evalAt` is "the sub-expression under that key" (an absent key reads as missing). -/
 theorem evalAt_eq (c : Ctx) (key : String) (gs : Fields) :
@@ -92,10 +102,14 @@ example : ∃ (c : Ctx) (x : Val) (rx : Option Val), eval c x = .ok rx ∧ nulli
   ⟨Ctx.init true (.doc []), .str "$zz", none, by
      simp [eval, evalBasic, strKind, Ctx.init, splitDotsChars, getDotGen, dget], rfl⟩
 
-/-- the general form: `$ifNull` over any list is the loop `evalIfNull`, which skips null and
-    missing operands … -/
-theorem ifNull_list (c : Ctx) (xs : List Val) :
-    eval c (.doc [("$ifNull", .arr xs)]) = evalIfNull c xs := Proofs.C04.ifNull_list c xs
+/-- the general form: `$ifNull` over a list of two or more operands is the loop `evalIfNull`,
+    which skips null and missing operands … -/
+theorem ifNull_list (c : Ctx) (xs : List Val) (hlen : 2 ≤ xs.length) :
+    eval c (.doc [("$ifNull", .arr xs)]) = evalIfNull c xs := Proofs.C04.ifNull_list c xs hlen
+
+/-- fewer than two operands are rejected (part of finding `laxargs`, repaired in the library) -/
+theorem ifNull_short (c : Ctx) (xs : List Val) (hlen : xs.length < 2) :
+    eval c (.doc [("$ifNull", .arr xs)]) = .error .opFail := Proofs.C04.ifNull_short c xs hlen
 
 theorem ifNull_skip (c : Ctx) (x y : Val) (r : List Val) (rx : Option Val)
     (hx : eval c x = .ok rx) (hn : nullish rx = true) :
@@ -207,38 +221,53 @@ theorem cmp_ops_total_partial (a b : Val) (ha : cmpFlat a = true) (hb : cmpFlat 
 example : cmpFlat (.arr [.int 1, .str "a", .null]) = true ∧ cmpFlat (.dbl 3 1) = true ∧
     boolNumClash (.arr [.int 1, .str "a", .null]) (.dbl 3 1) = false := by decide
 
+/-- a comparison with a missing operand follows the same order: missing is equal to missing only
+    and sorts below every value, null included (finding `missingcmp`, repaired in the library:
+    such a comparison used to be missing itself). -/
+theorem cmp_missing (k : String)
+    (hk : k = "$eq" ∨ k = "$ne" ∨ k = "$gt" ∨ k = "$gte" ∨ k = "$lt" ∨ k = "$lte")
+    (a b : Option Val) (hm : a = none ∨ b = none) :
+    compareOpt k a b = cmpHoldsOrd k (ordOpt a b) := Proofs.C04.compare_missing k hk a b hm
+
+example : compareOpt "$lt" none (some .null) = .ok (.bool true) ∧
+    compareOpt "$eq" none (some .null) = .ok (.bool false) ∧
+    compareOpt "$eq" none none = .ok (.bool true) := by
+  refine ⟨?_, ?_, ?_⟩ <;> simp [compareOpt]
+
 /-! ### `$expr` in the query matcher -/
 
-/-- The full-strength statement: `find({$expr: e})` selects `d` iff the value of `e` on `d` is
-    truthy, a missing value being false. -/
-def expr_filter_full : Prop :=
-  ∀ e d, exprFilter e d = (evalExpr d e).map Spec.toBool
+/-- **expr_filter_spec** — `find({$expr: e})` selects `d` iff the value of `e` on `d` is truthy
+    (`toBool`: everything except false, null, 0), a missing value being false; an error of the
+    expression is the error of the filter.  (Full strength: before the repairs 5f9b543 / b30f356 of
+    the library this statement was false — findings `exprtruth`, `exprmissing` — and only a partial
+    form over values other than `""`, `[]`, `{}` was proved.) -/
+theorem expr_filter_spec (e d : Val) : exprFilter e d = (evalExpr d e).map Spec.toBool :=
+  Proofs.C04.expr_filter_full e d
 
-/-- It is false of the code as it stands (known findings `exprtruth`, `exprmissing`): the
-    matcher uses Python truthiness, so `{$expr: "$s"}` rejects `{s: ""}`. -/
-theorem expr_filter_full_fails : ¬ expr_filter_full := by
-  intro h
-  have := h (.str "$s") (.doc [("s", .str "")])
-  simp [exprFilter, evalExpr, eval, evalBasic, strKind, Ctx.init, splitDotsChars, getDotGen, dget,
-    Val.truthy, Spec.toBool, Except.map] at this
+/-- the former counterexample: `{$expr: "$s"}` selects `{s: ""}` -/
+example : exprFilter (.str "$s") (.doc [("s", .str "")]) = .ok true := by
+  rw [expr_filter_spec]
+  simp [evalExpr, eval, evalBasic, strKind, Ctx.init, splitDotsChars, getDotGen, dget, Except.map,
+    Spec.toBool]
 
-/-- **expr_filter_spec** (partial: the value is present and is not one of `""`, `[]`, `{}`):
-    the matcher's verdict is `toBool` of the value. -/
-theorem expr_filter_spec_partial (e d v : Val) (h : evalExpr d e = .ok (some v))
-    (ht : pyFalsyButTrue (some v) = false) : exprFilter e d = .ok (Spec.toBool (some v)) :=
-  Proofs.C04.expr_filter_value e d v h ht
+/-- a value: the verdict is its `toBool` -/
+theorem expr_filter_value (e d : Val) (r : Option Val) (h : evalExpr d e = .ok r) :
+    exprFilter e d = .ok (Spec.toBool r) := Proofs.C04.expr_filter_value e d r h
 
-/-- outside that domain: a missing value is a KeyError that leaves `find` (finding
-    `exprmissing`), an error of the expression is the error of the filter -/
+/-- a missing value does not match (it used to be a KeyError that left `find`) -/
 theorem expr_filter_missing (e d : Val) (h : evalExpr d e = .ok none) :
-    exprFilter e d = .error .keyErr := Proofs.C04.expr_filter_missing e d h
+    exprFilter e d = .ok false := Proofs.C04.expr_filter_missing e d h
 
 theorem expr_filter_error (e d : Val) (err : Err) (h : evalExpr d e = .error err) :
     exprFilter e d = .error err := Proofs.C04.expr_filter_error e d err h
 
-example : ∃ e d v, evalExpr d e = .ok (some v) ∧ pyFalsyButTrue (some v) = false ∧ v = .int 0 :=
-  ⟨.str "$a.b", .doc [("a", .doc [("b", .int 0)])], .int 0, by
-    simp [evalExpr, eval, evalBasic, strKind, Ctx.init, splitDotsChars, getDotGen, dget], rfl, rfl⟩
+/-- e.g. `{$expr: "$a.b"}` on a document without `a.b` -/
+example : ∃ e d, evalExpr d e = .ok none ∧ exprFilter e d = .ok false :=
+  ⟨.str "$a.b", .doc [("a", .doc [("c", .int 0)])], by
+    simp [evalExpr, eval, evalBasic, strKind, Ctx.init, splitDotsChars, getDotGen, dget], by
+    rw [expr_filter_spec]
+    simp [evalExpr, eval, evalBasic, strKind, Ctx.init, splitDotsChars, getDotGen, dget, Except.map,
+      Spec.toBool]⟩
 
 /-! ### a missing field behaves as absent -/
 
@@ -291,14 +320,15 @@ theorem let_bindings (c : Ctx) (vs : Fields) (xs : List Val)
     evalVars c vs = .ok (some ((vs.map (·.1)).zip xs)) :=
   Proofs.C04.evalVars_ok c vs xs h
 
-/-- **map_spec** — `in` is evaluated once per item under the binding of the item. -/
+/-- **map_spec** — `in` is evaluated once per item under the binding of the item; an item whose
+    value is missing gives a null element. -/
 theorem map_spec (c : Ctx) (inp body : Val) (name : String) :
     eval c (.doc [("$map", .doc [("input", inp), ("as", .str name), ("in", body)])]) =
       (eval c inp).bind (fun r =>
         match r with
         | none | some .null => .ok (some .null)
         | some (.arr items) =>
-          (mapItems (fun item => eval (c.bind name item) body) items).map (·.map .arr)
+          (mapItems (fun item => eval (c.bind name item) body) items).map (fun ys => some (.arr ys))
         | some _ => .error .opFail) :=
   Proofs.C04.map_spec_as c inp body name
 
@@ -309,35 +339,44 @@ theorem map_spec_this (c : Ctx) (inp body : Val) :
         match r with
         | none | some .null => .ok (some .null)
         | some (.arr items) =>
-          (mapItems (fun item => eval (c.bind "this" item) body) items).map (·.map .arr)
+          (mapItems (fun item => eval (c.bind "this" item) body) items).map (fun ys => some (.arr ys))
         | some _ => .error .opFail) :=
   Proofs.C04.map_spec c inp body
 
-/-- when `in` has a value `g item` on every item, the result is the mapped list -/
-theorem map_items (f : Val → R (Option Val)) (g : Val → Val) (items : List Val)
-    (h : ∀ x ∈ items, f x = .ok (some (g x))) : mapItems f items = .ok (some (items.map g)) :=
+/-- when `in` has the value `g item` (possibly missing) on every item, the result is the mapped
+    list, null standing for a missing value -/
+theorem map_items (f : Val → R (Option Val)) (g : Val → Option Val) (items : List Val)
+    (h : ∀ x ∈ items, f x = .ok (g x)) :
+    mapItems f items = .ok (items.map (fun x => (g x).getD .null)) :=
   Proofs.C04.mapItems_ok f g items h
 
-/-- **filter_spec** — `cond` is evaluated once per item under the binding of the item; items are
-    kept by *Python* truthiness of the value (finding `filtertruth`). -/
+/-- the result has one element per item -/
+theorem map_length (f : Val → R (Option Val)) (items ys : List Val)
+    (h : mapItems f items = .ok ys) : ys.length = items.length :=
+  Proofs.C04.mapItems_length f items ys h
+
+/-- **filter_spec** — `cond` is evaluated once per item under the binding of the item; an item
+    is kept iff the value is true (`toBool`: anything except false, null, 0 and missing); a
+    null or missing input gives null. -/
 theorem filter_spec (c : Ctx) (inp cond : Val) :
     eval c (.doc [("$filter", .doc [("input", inp), ("cond", cond)])]) =
       (eval c inp).bind (fun r =>
         match r with
-        | none => .ok none
+        | none | some .null => .ok (some .null)
         | some (.arr items) =>
-          (filterItems (fun item => eval (c.bind "this" item) cond) items).map (·.map .arr)
+          (filterItems (fun item => eval (c.bind "this" item) cond) items).map
+            (fun ys => some (.arr ys))
         | some v => iterErr v) :=
   Proofs.C04.filter_spec c inp cond
 
-theorem filter_items (f : Val → R (Option Val)) (g : Val → Val) (items : List Val)
-    (h : ∀ x ∈ items, f x = .ok (some (g x))) :
-    filterItems f items = .ok (some (items.filter (fun x => (g x).truthy))) :=
+theorem filter_items (f : Val → R (Option Val)) (g : Val → Option Val) (items : List Val)
+    (h : ∀ x ∈ items, f x = .ok (g x)) :
+    filterItems f items = .ok (items.filter (fun x => Spec.toBool (g x))) :=
   Proofs.C04.filterItems_ok f g items h
 
 /-- whatever the condition does, `$filter` returns a sublist of its input (order kept) -/
 theorem filter_sublist (f : Val → R (Option Val)) (items ys : List Val)
-    (h : filterItems f items = .ok (some ys)) : ys.Sublist items :=
+    (h : filterItems f items = .ok ys) : ys.Sublist items :=
   Proofs.C04.filterItems_sublist f items ys h
 
 /-! ### arrays, sets, strings -/
@@ -416,23 +455,25 @@ theorem instant_recomposes (us : Int) :
 def eval_eq_spec_full : Prop :=
   ∀ e d v, specEval d e = .ok v → evalExpr d e = .ok v
 
-/-- It is false of the code as it stands (known finding `missingcmp`, one of the classes listed
-    in Spec/ExprDomain.lean): `{$lt: ["$zz", null]}` is true by the rules (missing sorts below
-    null) but the code makes the field disappear. -/
+/-- It is false of the code as it stands (known finding `boolnum`, one of the classes listed in
+    Spec/ExprDomain.lean): `{$eq: ["$a", 1]}` on `{a: true}` is false by the rules (a boolean is
+    not a number) but the code answers true, through Python `==`. -/
 theorem eval_eq_spec_full_fails : ¬ eval_eq_spec_full := by
   intro h
-  have := h (.doc [("$lt", .arr [.str "$zz", .null])]) (.doc []) (some (.bool true)) (by
+  have := h (.doc [("$eq", .arr [.str "$a", .int 1])]) (.doc [("a", .bool true)])
+    (some (.bool false)) (by
     simp [specEval, sEval, hasDollarKey', startsDollar, sOperator, strictOps, datePartOps, sList,
-      strKind, Spec.path, splitDotsChars, dget, applyStrict, ordOpt, cmpHoldsOrd, bind,
+      strKind, Spec.path, splitDotsChars, dget, applyStrict, ordOpt, ord, rank, cmpHoldsOrd, bind,
       Except.bind, pure, Except.pure, Except.map])
-  have h2 : evalExpr (.doc []) (.doc [("$lt", .arr [.str "$zz", .null])]) = .ok none := by
-    have hc : classify "$lt" = .comparison := by decide
+  have h2 : evalExpr (.doc [("a", .bool true)]) (.doc [("$eq", .arr [.str "$a", .int 1])]) =
+      .ok (some (.bool true)) := by
+    have hc : classify "$eq" = .comparison := by decide
     simp [evalExpr, eval, evalDoc, hc, mode, dateOps, datePartOps, wholeOps, unaryArithOps,
       groupingOps, evalOp, arityErr, binaryArithOps, comparisonOps, listOps, arithmeticOps,
-      usesParseMany, evalList, evalBasic, strKind, Ctx.init, splitDotsChars, getDotGen, dget,
-      manyItem, bind, Except.bind, pure, Except.pure]
+      evalAll, evalBasic, strKind, Ctx.init, splitDotsChars, getDotGen, dget, compareOpt,
+      compareOp, pyEq, bind, Except.bind, pure, Except.pure, Except.map]
   rw [h2] at this
-  cases this
+  simp at this
 
 /-- **eval_eq_spec** (partial: on D) — on every (expression, document) pair of the domain the
     evaluator computes exactly the value the rules define (or "missing" when they say so),
@@ -455,12 +496,82 @@ example : exprInD
     = true := by decide +kernel
 
 /-- **expr_filter_spec** on D: `find({$expr: e})` selects the document iff the value the rules
-    define is truthy (`toBool`, missing = false). -/
-theorem expr_filter_eq_spec_partial (e d : Val) (h : filterReasons e d = []) :
+    define is truthy (`toBool`, missing = false).  The domain is D itself: the matcher adds no
+    exclusion class of its own any more. -/
+theorem expr_filter_eq_spec_partial (e d : Val) (h : exprInD e d = true) :
     exprFilter e d = specFilter e d :=
   Proofs.C04.filter_eq_spec e d h
 
-example : filterReasons (.doc [("$and", .arr [.str "$a", .doc [("$lt", .arr [.str "$a", .int 3])]])])
-    (.doc [("a", .int 2)]) = [] := by decide +kernel
+theorem filterReasons_eq (e d : Val) : filterReasons e d = exprReasons e d := rfl
+
+example : exprInD (.doc [("$and", .arr [.str "$a", .doc [("$lt", .arr [.str "$a", .int 3])]])])
+    (.doc [("a", .int 2)]) = true := by decide +kernel
+
+/-- the witnesses of the repaired findings `exprtruth` (a value that is `""`) and `exprmissing`
+    (a missing value) are inside D -/
+example : exprInD (.str "$s") (.doc [("_id", .int 0), ("s", .str "")]) = true ∧
+    exprInD (.str "$a") (.doc [("_id", .int 0)]) = true := by decide +kernel
+
+/-! ### operators repaired in the library: now inside D -/
+
+/-- the witnesses of the repaired findings `strcasecmp`, `numtype`, `adddate`, `nullarg`,
+    `filtertruth`, `mapmissing`, `missingcmp` are inside D, where `eval_eq_spec_partial` gives them the value of
+    the rules -/
+example :
+    exprInD (.doc [("$strcasecmp", .arr [.str "$s", .str "ab"])])
+      (.doc [("_id", .int 0), ("s", .str "AB")]) = true ∧
+    exprInD (.doc [("$mod", .arr [.str "$a", .int 2])]) (.doc [("_id", .int 0), ("a", .int 5)]) = true ∧
+    exprInD (.doc [("$ceil", .str "$x")]) (.doc [("_id", .int 0), ("x", .dbl 5 1)]) = true ∧
+    exprInD (.doc [("$add", .arr [.str "$t", .int 1000])])
+      (.doc [("_id", .int 0), ("t", .date 1577836800000000 none)]) = true ∧
+    exprInD (.doc [("$year", .str "$t")]) (.doc [("_id", .int 0), ("t", .null)]) = true ∧
+    exprInD (.doc [("$arrayElemAt", .arr [.str "$zz", .int 0])]) (.doc [("_id", .int 0)]) = true ∧
+    exprInD (.doc [("$filter", .doc [("input", .str "$l"), ("cond", .str "$$this")])])
+      (.doc [("_id", .int 0), ("l", .arr [.str "", .str "x", .int 0])]) = true ∧
+    exprInD (.doc [("$map", .doc [("input", .str "$l"), ("in", .str "$zz")])])
+      (.doc [("_id", .int 0), ("l", .arr [.int 1])]) = true ∧
+    exprInD (.doc [("$lt", .arr [.str "$zz", .null])]) (.doc [("_id", .int 0)]) = true := by
+  decide +kernel
+
+/-- `$strcasecmp` compares the upper-cased operands: wherever the rule defines the result, the
+    operator body computes it (null and missing operands count as `""`) -/
+theorem strcasecmp_spec (a b : Option Val) (r : Val) (h : strcasecmpS a b = .ok r) :
+    strcasecmpOp (a.getD .null) (b.getD .null) = .ok r := Proofs.C04.strcasecmp_pure a b r h
+
+example : strcasecmpOp (.str "AB") (.str "ab") = .ok (.int 0) := by
+  have h1 : asciiUpper "AB" = .ok "AB" := by decide +kernel
+  have h2 : asciiUpper "ab" = .ok "AB" := by decide +kernel
+  simp [strcasecmpOp, upperArg, pyStr, h1, h2, bind, Except.bind, pure, Except.pure]
+
+/-- `$mod` of two integers is the integer remainder with the sign of the dividend -/
+theorem mod_int (a b : Int) (hb : b ≠ 0) :
+    binaryArith "$mod" (.int a) (.int b) = .ok (.int (Int.tmod a b)) := by
+  have : (b == 0) = false := by simpa using hb
+  simp [binaryArith, isNull, toPyNum, pyMod, this]
+
+/-- `$ceil $floor $trunc` of a double are doubles -/
+theorem round_keeps_double (m : Int) (e : Nat) :
+    unaryArith "$ceil" (.f m e) = mkF (ceilDy m e) 0 ∧
+    unaryArith "$floor" (.f m e) = mkF (floorDy m e) 0 ∧
+    unaryArith "$trunc" (.f m e) = mkF (if m ≥ 0 then floorDy m e else ceilDy m e) 0 := by
+  refine ⟨?_, ?_, ?_⟩ <;> simp [unaryArith]
+
+/-- `$add` of a date and an integer moves the date by that many milliseconds -/
+theorem add_date_int (u n : Int) :
+    naryArith "$add" [.date u none, .int n] = .ok (.date (u + n * 1000) none) := by
+  simp [naryArith, checkAdd, toPyNum, sumNums, PyNum.add, PyNum.check, datePlus, bind, Except.bind,
+    pure, Except.pure]
+
+/-- two dates are rejected -/
+theorem add_two_dates (u u' : Int) (r : List Val) :
+    naryArith "$add" (.date u none :: .date u' none :: r) = .error .opFail := by
+  simp [naryArith, checkAdd, bind, Except.bind]
+
+/-- `$concat` rejects an operand that is neither a string nor null -/
+theorem concat_rejects (vals : List Val) (v : Val) (hv : v ∈ vals) (h1 : isNull v = false)
+    (h2 : isStr v = false) : concatOp vals = .error .opFail := by
+  have : vals.any (fun v => !isNull v && !isStr v) = true :=
+    List.any_eq_true.mpr ⟨v, hv, by simp [h1, h2]⟩
+  simp [concatOp, this]
 
 end MongoModel.Props.C04
